@@ -346,6 +346,99 @@ def main():
                     C.sample({"exit": stmt, "loop": loop_kind, "inner_entries": ik, "blocks_after": a["blocks"]})
             C.reach(f"{exit_kind}/{loop_kind}/ok-path-exists", [z3.BoolVal(n_ok > 0)])
 
+    # ---------------------------------------------------------------- Part C
+    # `return`: the real Return arm (operand evaluated) from every I-state.  In a called function the frame — and every
+    # block in it — is dropped by the frame exit of `eval`; at top level the frame outlives the return (a session's
+    # next request runs in it), so I must hold again: nothing pending, hence exactly the top-level block live.
+    def replay_return(inner_kinds):
+        def replay(_m):
+            lines, closers, names = [], [], []
+            for i, k in enumerate(inner_kinds or ["If"]):
+                if k == "Match":
+                    lines.append("match Some(1) { Some(_) => {")
+                    closers.append("} None => {} }")
+                elif k == "Try":
+                    lines.append("try {")
+                    closers.append("} catch(e) { }")
+                elif k in ("While",):
+                    lines.append("while True {")
+                    closers.append("}")
+                elif k in ("ForIn",):
+                    lines.append("for it in [1] {")
+                    closers.append("}")
+                else:
+                    lines.append("if True {")
+                    closers.append("}")
+                lines.append(f"let zr{i} = 1")
+                names.append(f"zr{i}")
+            lines.append("return 5")
+            prog = "\n".join(lines + list(reversed(closers)))
+            s = native.JsonSession()
+            try:
+                j, _, _ = s.request(prog, timeout=10)
+                first = native.response_summary(j)[:2]
+                leaked = []
+                for nm in names:
+                    j, _, _ = s.request(nm, timeout=10)
+                    r = native.response_summary(j)[:2]
+                    if not (r[0] == "err" and "No such variable" in r[1]):
+                        leaked.append((nm, r))
+                return {"reproduced": bool(leaked) and first[0] == "ok", "artefact": {"requests": [prog] + names},
+                        "detail": f"first={first} visible after the return: {leaked}"}
+            finally:
+                s.close()
+        return replay
+
+    all_popper_classes = sorted(poppers)
+
+    def runc(ctx):
+        n_inner = ctx.choose([True] * (max_inner + 1))
+        inner, inner_kinds = [], []
+        for i in range(n_inner):
+            c = ctx.choose([True] * (1 + len(all_popper_classes)))
+            if c == 0:
+                inner.append((mk_state(("NotEvaluated", None)), tok_expr(f"inner{i}")))
+                inner_kinds.append("tok")
+            else:
+                st, k = all_popper_classes[c - 1]
+                inner.append((mk_state(st), mk_kind_expr(ctx, P, k)))
+                inner_kinds.append(k)
+        blocks = 1 + sum(1 for k in inner_kinds if k != "tok")
+        frame = M.mk_frame(values=[M.mk_value(Opaque("bottom")), M.mk_value(Opaque("retval"))], exprs=inner, nblocks=blocks)
+        I = M.mk_interp(P, ctx)
+        env = M.mk_env([frame], extra={"ticks": Int(0, 64, False)})
+        ex = mk_kind_expr(ctx, P, "Return", used=False)
+        st_cell = [mk_state(("EvaluatedSubexpressions", None))]
+        sref = Ref(lambda: st_cell[0], lambda v: st_cell.__setitem__(0, v))
+        r = I.call_user(P.fns["eval_expr"], [env, Struct("Session", {}, partial=True), ex, sref])
+        return {"I": I, "r": r, "blocks": nblocks(frame), "exprs": list(frame.fields["exprs_to_eval"].items),
+                "next": len(frame.fields["bindings_next_block"].items), "inner_kinds": inner_kinds}
+    try:
+        resc = explore(runc, max_paths=20000)
+    except (Unsupported, UnwindExceeded) as ex:
+        resc = []
+        C.inconclusive.append(f"Return arm not encodable: {ex}")
+    C.note_paths(resc)
+    n_ret = 0
+    for i, r in enumerate(resc):
+        if r.kind == "panic":
+            C.prove(f"return/path{i}:no-panic", r.pc, False, site=f"return/panic/{r.value.fn}:{r.value.line}",
+                    what=f"`return` panics: {r.value}", replay=replay_return([]))
+            continue
+        if r.kind != "ok" or M.result_kind(r.value["r"]) != "Ok":
+            continue
+        v = r.value
+        C.note_interp(v["I"])
+        n_ret += 1
+        ik = [k for k in v["inner_kinds"] if k != "tok"]
+        inv_after = v["blocks"] == 1 + sum(entry_class(e, poppers) for e in v["exprs"]) and v["next"] == 0
+        C.prove(f"return/toplevel/inner=[{','.join(v['inner_kinds'])}]:invariant-after-return", r.pc, inv_after,
+                site="return/toplevel/blocks-survive" + ("/nested" if len(ik) > 1 else ""),
+                what=f"after `return` in the top-level frame {v['blocks']} blocks are live but {len(v['exprs'])} entries are pending: "
+                     "the locals of the blocks that were left stay visible to the session's next request",
+                replay=replay_return(ik), model_desc=lambda m, v=v: {"inner": v["inner_kinds"], "blocks_after": v["blocks"]})
+    C.reach("return/ok-path-exists", [z3.BoolVal(n_ret > 0)])
+
     # translator validation: programs the replay builder produces, on behaviours that are not in dispute
     for loop in ("While", "ForIn"):
         prog, names = replay_program(loop, ["If", "Match"], "cnt = cnt + 0")
